@@ -6,7 +6,7 @@ import warnings
 from hypothesis import strategies as st
 
 from .. import dimsegen as dg, fakedul as fd, refcmd
-from ..common import Violation, HarnessError, hyp_search, parallel, lib_frame
+from ..common import Violation, HarnessError, hyp_search, parallel, lib_frame, quiet_warnings
 
 LEVEL = 'exploration'
 
@@ -404,7 +404,7 @@ def run_loopback(ctx):
 
 
 def run_pairs(ctx, job):
-    warnings.simplefilter('ignore')
+    quiet_warnings()
     for (L, P) in job['pairs']:
         lengths = data_lengths(P, L)
         for role, fn in (('acceptor', run_acceptor_case), ('requestor', run_requestor_case),
@@ -438,7 +438,7 @@ def run_random(ctx, n):
 
 
 def run(ctx):
-    warnings.simplefilter('ignore')
+    quiet_warnings()
     ctx.exhaustive = True
     ctx.rule = ('exhaustive grid: (own configured maximum, peer-announced maximum) over %d x %d boundary values '
                 '(0 = no limit .. 2^32-1) x {acceptor, acceptor whose limit is set per peer in the on_association_request hook, the storage entities StorageAE / ClientStorageAE, requestor} x data lengths {none, 1, f-1, f, f+1, 3f+1} and a data-less message whose command set is longer than one fragment (Offending Element list), the Maximum Length sub-item first / last / in the middle of the user information and the reserved bytes of its PDU zero or not, around '
@@ -469,7 +469,7 @@ def run(ctx):
 
 
 def replay(case):
-    warnings.simplefilter('ignore')
+    quiet_warnings()
     if case.get('role') == 'loopback-exact-peer':
         from .. import loopback as lb
         try:
